@@ -1,5 +1,6 @@
 """C14 - the complexity limit is a sound gate: over-limit operations execute nothing."""
 import os
+import re
 import shutil
 from collections import Counter
 from concurrent.futures import ThreadPoolExecutor
@@ -24,6 +25,15 @@ def _name_class(n):
     elif any(a.isupper() and b.isupper() for a, b in zip(n, n[1:])):
         cls.append("initialism")
     return "+".join(cls) or "other"
+
+
+_OP_KIND = re.compile(r"\b(query|mutation|subscription)\s+Op\b")
+
+
+def _op_kind(query):
+    """the kind of the operation `Op` of a document = the root it runs on"""
+    m = _OP_KIND.search(query)
+    return m.group(1) if m else "query"
 
 
 def _inst_parse(cfg):
@@ -103,7 +113,7 @@ def run(ctx):
     ]
     ctx.assumptions += [
         "generated servers: the binding of schema fields to Go fields is the one DECLARED by the project the harness writes (an explicit @goField(name:) / fieldName / a name equal up to case and underscores, each matching exactly one field or method of the hand-written model); that gqlgen's binder resolves these declarations to that Go field is observed (the entries of the generated ComplexityRoot are compared with the declared ones), not modelled",
-        "the template part of the generated Complexity() switch: the switch tag, the spelling of the case labels, the guards, the selectors of the nil check / the call and the ComplexityRoot declaration are regenerated per template flavour (Gen/ComplexityLabels.lean, go/extract/complexitylabels.go; text/template/parse) and proved Faithful (Props/C14Label.lean); the nesting of the ranges (`case` before the first member, body after the last) is recognised by the extractor (anything else is refused) and modelled by hand (Model/ComplexityLabel.lean, Model/ComplexitySwitch.lean) over the regenerated UniqueFields, tied by direct calls of the really generated Complexity() for every (type, field) of every generated project; argument unmarshalling (field_*_args) is executed, not modelled",
+        "the template part of the generated Complexity() switch: the switch tag, the spelling of the case labels, the guards (over $object.IsReserved / $field.IsReserved and the kind of the object: $object.Root, $object.Stream), the selectors of the nil check / the call and the ComplexityRoot declaration are regenerated per template flavour (Gen/ComplexityLabels.lean, go/extract/complexitylabels.go; text/template/parse) and proved Faithful (Props/C14Label.lean); the nesting of the ranges (`case` before the first member, body after the last) is recognised by the extractor (anything else is refused) and modelled by hand (Model/ComplexityLabel.lean, Model/ComplexitySwitch.lean) over the regenerated UniqueFields, tied by direct calls of the really generated Complexity() for every (type, field) of every generated project; argument unmarshalling (field_*_args) is executed, not modelled",
     ]
     ok_extract = ctx.extract("SafeAdd", "UniqueFields", "ComplexityLabels", "ExtInstall")
     proved = ok_extract and ctx.prove(props=["GqlgenVerif.Props.C14", "GqlgenVerif.Props.C14Gen", "GqlgenVerif.Props.C14Label", "GqlgenVerif.Props.C14Install"])
@@ -410,7 +420,10 @@ def run(ctx):
                 "generated servers: directed projects of corpus/C14/genprojects.txt + seeded random projects (2..4 hand-written models, groups of 1..3 schema fields bound to one Go struct field / method through "
                 "@goField(name:), fieldName configuration or names equal up to case/underscore, members shuffled so the by-name member is first/middle/last, forced resolvers next to a shared name, scalar/object-typed/method-with-arguments groups; "
                 "NAMES: every type (objects, interface, union, renamed query/mutation roots) and every field respelled per project: leading lower case / capital, snake_case, ALL CAPS, digits, initialisms, trailing underscore, "
-                "spellings that collide after Go mangling = one shared entry; every random project has a hand-written and a generated model whose type name starts lower-case; directed project d3), "
+                "spellings that collide after Go mangling = one shared entry; every random project has a hand-written and a generated model whose type name starts lower-case; directed project d3; "
+                "ROOTS: every random project has a Query, a Mutation and a Subscription root (renamed / respelled, in any order; d1 and d3 all three, d2 Query + Subscription), custom functions on fields of each root, "
+                "operations of each kind (a subscription = one root field, direct / through an inline fragment / through a fragment on the root; its resolver returns a channel; over HTTP through transport.SSE), "
+                "one operation per field of every root x {constant 1000, 3*child+7, first Int argument x child, no entry} at c-1/c/c+1), "
                 "each generated in both layouts (generated!.gotpl single file; root_.gotpl follow-schema + function syntax): Complexity() asked directly for every (type, field) incl. interfaces/unions/__Type/unknown names, "
                 "every field of every hand-written model x one table per shared entry, corpus operations x corpus tables, seeded random operations x random ComplexityRoot tables, the gate at c-1/c/c+1 with counting resolvers",
         "input_distribution": dict(branch),
@@ -590,6 +603,12 @@ def run_generated(ctx, have_model, branch, nontriv):
             spec = ms if ms is not None else oracle
             last_spec[p] = spec
             st["calculate"] += 1
+            kind = _op_kind(query)
+            branch["gen:root:" + kind] += 1
+            # the ROOT dimension: is a function configured for a field of the root the operation runs on?
+            root_types = [o.split(":")[0] for o in objs.split(";") if "+Root" in o.split(":")[1]]
+            if any(k.split(".")[0] in root_types for k in ([] if ents == "-" else ents.split(";"))):
+                branch["gen:root:" + kind + ":custom-cost-on-a-root-field"] += 1
             for t in tags.split(","):
                 branch["gen:" + t] += 1
             nontriv.add("gc%s|%s|%s|%s" % (p, ents, vs, doc))
@@ -611,6 +630,8 @@ def run_generated(ctx, have_model, branch, nontriv):
             over = c > lim
             st["gate"] += 1
             branch["gen:gate:" + ("over-limit" if over else ("at-limit" if c == lim else "below-limit"))] += 1
+            kind = _op_kind(query)
+            branch["gen:gate:%s:%s" % (kind, "over-limit" if over else "within-limit")] += 1
             nontriv.add("gg%s|%s|%s|%s|%s" % (p, ents, vs, doc, limit))
             bad = []
             if over:
@@ -628,12 +649,15 @@ def run_generated(ctx, have_model, branch, nontriv):
             if stl != limit:
                 bad.append("stats-limit")
             if bad:
-                report("gate", {"kind": "correspondence", "case_kind": "gate on a generated server", "project": p, "query": query, "complexity_root": ents, "customs_by_schema_field": cus,
+                # an over-limit operation that ran is THE failing input of the property: reported in its own right, not crowded
+                # out by the within-limit rows (wrong recorded complexity) that come first in the stream
+                report("gate:ran-over-limit" if (over and "resolver-ran" in bad) else "gate", {"kind": "correspondence", "case_kind": "gate on a generated server", "project": p, "query": query, "complexity_root": ents, "customs_by_schema_field": cus,
                                 "vars": vs, "limit": limit, "complexity_by_definition": c, "differs": bad,
                                 "impl": {"executor": {"resolver_calls": calls, "code": code, "stats_complexity": stc, "stats_limit": stl},
                                          "http": {"resolver_calls": hcalls, "code": hcode, "status": hstatus}}, "input": files(p),
+                                "operation_kind": kind, "http_transport": "SSE (POST, Accept: text/event-stream)" if kind == "subscription" else "POST",
                                 "shape": {"part": "generated-switch", "what": "gate", "class": "over-limit" if over else "within-limit", "differs": ",".join(bad)},
-                                "replay": "%s: operation `%s` with ComplexityRoot {%s} and variables {%s} has complexity %d; with FixedComplexityLimit(%s) the generated server ran %s resolver(s) (HTTP: %s), code %s (HTTP: %s), recorded complexity %s; expected %s" % (
-                                    where(p), query, ents, vs, c, limit, calls, hcalls, code, hcode, stc,
+                                "replay": "%s: operation `%s` with ComplexityRoot {%s} and variables {%s} has complexity %d; with FixedComplexityLimit(%s) the generated server ran %s resolver(s) (HTTP%s: %s), code %s (HTTP: %s), recorded complexity %s; expected %s" % (
+                                    where(p), query, ents, vs, c, limit, calls, " SSE" if kind == "subscription" else "", hcalls, code, hcode, stc,
                                     "no resolver and COMPLEXITY_LIMIT_EXCEEDED" if over else "no complexity rejection")}, True)
     return st
